@@ -126,6 +126,7 @@ class World:
 
     def fn_info(self, qual):
         """AST + decorator facts of a function in /repo, by qualified name."""
+        qual = qual.split('@')[0]
         if qual not in self._fn_info:
             self._fn_info[qual] = extract.find_function(qual, REPO)
         return self._fn_info[qual]
@@ -301,6 +302,22 @@ class World:
         raise Unsupported(f'construction of {cls_qual}', node)
 
     def call_attr(self, eng, base, attr, e, st, recv_node):
+        if isinstance(base, VPy) and isinstance(base.obj, tuple) and base.obj and base.obj[0] == 'choice':
+            _, c, a, b = base.obj
+            st.guards.append(c)
+            try:
+                ra = self.call_attr(eng, a, attr, e, st, recv_node)
+            finally:
+                st.guards.pop()
+            st.guards.append(z3.Not(c))
+            try:
+                rb = self.call_attr(eng, b, attr, e, st, recv_node)
+            finally:
+                st.guards.pop()
+            m = eng.merge_val(c, ra, rb)
+            if m is None:
+                raise Unsupported('method on a conditional object with unrelated results', e)
+            return m
         args = [eng.ev(a, st) for a in e.args]
         kwargs = {k.arg: eng.ev(k.value, st) for k in e.keywords}
         if isinstance(base, VObj):
@@ -485,7 +502,9 @@ class World:
                     eng.may_raise(st, 'ValueError', z3.Length(a.term) > INT_MAX_STR_DIGITS, 'int(s, 10) beyond the interpreter digit limit')
                     return V(INT, z3.StrToInt(a.term))
                 if base == 16:
-                    lang = z3.Plus(z3.Union(z3.Range('0', '9'), z3.Range('a', 'f'), z3.Range('A', 'F')))
+                    # int() strips surrounding whitespace (str.strip semantics); CSS whitespace is a subset of it
+                    wsl = z3.Star(z3.Union(z3.Re(' '), z3.Re('\t'), z3.Re('\n'), z3.Re('\r'), z3.Re('\x0c'), z3.Re('\x0b')))
+                    lang = z3.Concat(wsl, z3.Plus(z3.Union(z3.Range('0', '9'), z3.Range('a', 'f'), z3.Range('A', 'F'))), wsl)
                     eng.may_raise(st, 'ValueError', z3.Not(z3.InRe(a.term, lang)), 'int(s, 16) of a non-hex string')
                     f = self.ufunc('hex_value', STR.sort(), INT.sort())
                     r = f(a.term)
@@ -791,7 +810,7 @@ class World:
         post.env['result'] = res
         gs = list(st.guards)
         region = eng.spec_bool(c.kf_region, pre) if c.kf_region else None
-        for e in c.ensures:
+        for e in list(c.ensures) + list(c.defines):
             fact = eng.spec_bool(e, post)
             if region is not None:
                 fact = z3.Or(region, fact)
